@@ -140,7 +140,52 @@ def run(ctx):
                             bad.append(f"`if {U(t)}` tests the stored value, so a stored False / 0 / empty value is not restored")
                 if isinstance(t, ast.Compare) and len(t.ops) == 1 and isinstance(t.ops[0], ast.In) and U(t.comparators[0]) == src:
                     n += 1
+        # polarity: the stored value is read exactly on the paths where the key is present
+        for path in function_paths(r_.node):
+            pres = {}
+            for s_ in path:
+                if s_[0] == "cond" and isinstance(s_[1], ast.Compare) and len(s_[1].ops) == 1 and isinstance(s_[1].ops[0], (ast.In, ast.NotIn)) \
+                        and U(s_[1].comparators[0]) == src and isinstance(s_[1].left, ast.Constant):
+                    pres[s_[1].left.value] = (isinstance(s_[1].ops[0], ast.In) == s_[2])
+            reads = {x.slice.value for s_ in path if s_[0] == "stmt" for x in ast.walk(s_[1])
+                     if isinstance(x, ast.Subscript) and U(x.value) == src and isinstance(x.slice, ast.Constant)}
+            for k_, present in pres.items():
+                if present and k_ not in reads:
+                    bad.append(f"'{k_}' is present but its value is not read on that path")
+                if not present and k_ in reads:
+                    bad.append(f"'{k_}' is read on the path where it is absent")
+        bad = sorted(set(bad))
         ctx.check(not bad, "C08.a", f"{r_.qualname}:presence-guards", f"{n} optional-key guard(s), all presence tests", " ; ".join(bad), r_.where)
+
+    # the subclass hook that adds keys is invoked on the dictionary that is returned
+    for owner, td_ in (("HistogramBase", td), ("BinningBase", BB.methods["to_dict"])):
+        rets_ = [U(n.value) for n in ast.walk(td_.node) if isinstance(n, ast.Return)]
+        hook = [U(c.args[0]) for c in calls_in(td_.node) if U(c.func) == "self._update_dict" and c.args]
+        ctx.check(len(rets_) == 1 and hook == rets_, "C08.a", f"{owner}.to_dict:hook", "self._update_dict(<the returned dict>) is called",
+                  f"{owner}.to_dict returns {rets_} but calls the subclass hook on {hook} - keys added by subclasses are lost", td_.where)
+
+    # the 1-D / N-D readers unpack the stored missed list exactly when it is there
+    k1 = m.cls("Histogram1D").methods["_kwargs_from_dict"]
+    pol1 = {}
+    for p_ in function_paths(k1.node):
+        cs_ = dict((U(s_[1]), s_[2]) for s_ in p_ if s_[0] == "cond")
+        if "missed is not None" in cs_:
+            pol1[cs_["missed is not None"]] = any(s_[0] == "stmt" and isinstance(s_[1], ast.Assign) and "kwargs['underflow']" in U(s_[1].targets[0]) for s_ in p_)
+    ctx.check(pol1 == {True: True, False: False}, "C08.a", "Histogram1D._kwargs_from_dict:missed-unpacked",
+              "underflow, overflow, inner_missed = missed exactly when a missed list was stored", f"unpacking per `missed is not None`: {pol1}", k1.where)
+    kn = m.cls("HistogramND").methods["_kwargs_from_dict"]
+    poln = {}
+    for p_ in function_paths(kn.node):
+        cs_ = dict((U(s_[1]), s_[2]) for s_ in p_ if s_[0] == "cond")
+        if "'missed' in kwargs" in cs_:
+            poln[cs_["'missed' in kwargs"]] = any(s_[0] == "stmt" and isinstance(s_[1], ast.Assign) and "kwargs['missed']" in U(s_[1].targets[0]) for s_ in p_)
+    ctx.check(poln == {True: True, False: False}, "C08.a", "HistogramND._kwargs_from_dict:missed-unpacked",
+              "(missed,) = stored one-item list exactly when present", f"unpacking per `'missed' in kwargs`: {poln}", kn.where)
+    kf = HB.methods["_kwargs_from_dict"]
+    dim_if = [n for n in ast.walk(kf.node) if isinstance(n, ast.If) and "dimension" in U(n)]
+    okdim = len(dim_if) == 1 and U(dim_if[0].test) == "len(kwargs['binnings']) > 2" and [U(b) for b in dim_if[0].body] == ["kwargs['dimension'] = len(kwargs['binnings'])"]
+    ctx.check(okdim, "C08.a", "HistogramBase._kwargs_from_dict:dimension", "`dimension` is passed for more than two axes only (the 1-D / 2-D constructors fix it themselves)",
+              f"dimension handling: {[U(n)[:90] for n in dim_if]}", kf.where)
 
     # from_dict is cls(**kwargs) of that chain
     fd = HB.methods.get("from_dict")
